@@ -1,5 +1,6 @@
 import RtenVerif.Driver.Util
 import RtenVerif.Model.BlockQuant
+import RtenVerif.Model.BlockQuantIndex
 
 /-!
 `model_C37`: line protocol of `harness/gemm/src/bin/c37.rs`.
@@ -10,7 +11,7 @@ All arithmetic is done in `Int` with scales doubled (`sc2 = 2·scale`), i.e. the
 instantiated at the commutative ring `Int`.
 -/
 namespace RtenVerif.Driver.C37
-open RtenVerif.Driver RtenVerif.BlockQuant
+open RtenVerif.Driver RtenVerif.BlockQuant RtenVerif.BlockQuantIndex
 
 def parseRle (s : String) : Option (List Int) :=
   if s == "_" then some [] else
@@ -80,10 +81,14 @@ def handleBq (ws : List String) : Option String := do
       | none => return "skip"
       | some (l, rs) =>
         for (q, s) in colQ.zip colS do
-          out := int8Blocks unsignedLhs bs s rs l q :: out
+          match int8BlocksChecked unsignedLhs bs s rs l q with
+          | some v => out := v :: out
+          | none => return "err:scales"
     else
       for (q, s) in colQ.zip colS do
-        out := refDot bs s row q :: out
+        match refDotChecked bs s row q with
+        | some v => out := v :: out
+        | none => return "err:scales"
   return showRle out.reverse
 
 def errName : Err → String
@@ -118,11 +123,43 @@ def handleScales (ws : List String) : Option String := do
   | .error e => return s!"err:{errName e}"
   | .ok _ => return "ok unwritten=0"
 
+/-- Elements per SIMD vblock of the ISA a hook line names. -/
+def epvOf (isa : String) : Option Nat :=
+  if isa == "generic" then some 32 else if isa == "avx2" then some 64
+  else if isa == "avx512" || isa == "avx512-vnni" then some 128 else none
+
+/-- `sidx mode= isa= bs= nb=`: the scale index the kernel uses for every element position. -/
+def handleSidx (ws : List String) : Option String := do
+  let kvs ← ws.mapM parseKv
+  let mode ← field kvs "mode"
+  let epv ← epvOf (← field kvs "isa")
+  let bs ← (← field kvs "bs").toNat?
+  let nb ← (← field kvs "nb").toNat?
+  let f := if mode == "int8" then scaleIdxInt8 epv bs nb else scaleIdxFloat epv bs nb
+  return s!"idx={showRle ((List.range (nb * bs)).map fun k => (f k : Int))}"
+
+/-- `hot … col= kb= byte= nib= q=`: a single non-zero (dequantised) weight; which LHS position
+and output column see it, and with which value (×2). -/
+def handleHot (ws : List String) : Option String := do
+  let kvs ← ws.mapM parseKv
+  let nat (k : String) : Option Nat := do (← field kvs k).toNat?
+  let bs ← nat "bs"
+  let col ← nat "col"
+  let kb ← nat "kb"
+  let byte ← nat "byte"
+  let nib ← nat "nib"
+  let q ← nat "q"
+  let k := posElem bs (kb, byte, nib)
+  let sc2 : Int := ((1 <<< ((col + kb) % 4) : Nat) : Int)
+  return s!"k={k} col={col} val2={((q : Int) - 8) * sc2}"
+
 def handle (line : String) : String :=
   match words line with
   | "bq" :: ws => (handleBq ws).getD "bad-request"
   | "bqerr" :: ws => (handleErr ws).getD "bad-request"
   | "operr" :: _ => "err"
+  | "sidx" :: ws => (handleSidx ws).getD "bad-request"
+  | "hot" :: ws => (handleHot ws).getD "bad-request"
   | "bqscales" :: ws => (handleScales ws).getD "bad-request"
   | "#" :: _ => "skip"
   | _ => "bad-request"
